@@ -87,6 +87,8 @@ def tags(sc, obs):
                 yield "model:may-stop-early"
         elif w[0] == "arep":
             yield "model:agent-reporters"
+        if w[0] in ("mrep", "arep") and ("req" in w or "lreq" in w):
+            yield "model:reporter-may-raise"
 
 
 if __name__ == "__main__":
